@@ -165,6 +165,35 @@ def neighbours(g, sp, d, spherical):
     return [([sp[0] + h, sp[1]], d), ([sp[0] - h, sp[1]], d), ([sp[0], sp[1] + h], d), ([sp[0], sp[1] - h], d), (sp, d + 1.0), (sp, d - 1.0)]
 
 
+def micro_neighbours(sp, d, spherical):
+    h = 1e-9 if spherical else 1e-4             # ~0.1 mm
+    return [([sp[0] + h, sp[1]], d), ([sp[0] - h, sp[1]], d), ([sp[0], sp[1] + h], d), ([sp[0], sp[1] - h], d), (sp, d + 1e-4), (sp, d - 1e-4)]
+
+
+def on_discontinuity(g, path_a, path_b, sp, d, fpt, spherical):
+    """does the library's answer jump within 0.1 mm of the query in the original or in the moved world?  (The closest-point search on a trench curve stops at
+    a tolerance and its starting piece changes at certain positions - e.g. exactly above the middle of a trench - so the reported slab distance jumps by ~0.1 m
+    there; which side an exact such point falls on is decided by the rounding of the moved coordinates.)  A continuous field changes by less than the comparison
+    tolerance over 0.1 mm."""
+    lines = ["world a %s -" % path_a, "world b %s -" % path_b]
+    for (sp2, d2) in [(sp, d)] + micro_neighbours(sp, d, spherical):
+        lines.append(q3("a", to3(g, sp2, d2), d2, PROPS))
+    for (sp2, d2) in [(sp, d)] + micro_neighbours(sp, d, spherical):
+        lines.append(q3("b", to3(g, list(fpt(sp2[0], sp2[1])), d2), d2, PROPS))
+    rc, out, err = proto.run_harness(lines)
+    if rc != 0 or len(out) != len(lines) or out[:2] != ["ok", "ok"]:
+        return False
+    for blk in (out[2:9], out[9:16]):
+        ans = [parse_answer(o) for o in blk]
+        if any(a[0] != "ok" for a in ans):
+            return True
+        c = ans[0][1]
+        for a in ans[1:]:
+            if len(a[1]) != len(c) or any(not close_vals(x, y) for x, y in zip(a[1], c)):
+                return True
+    return False
+
+
 def close_vals(a, b):
     if a == b:
         return True
@@ -300,6 +329,9 @@ def oracle(seed, tier):
                         if not close_vals(x, y):
                             bad = "output slot %d (%s) %r became %r" % (si, ["temperature", "composition 0", "composition 1", "composition 2", "composition 3"][si] if si < 5 else "grains", x, y)
                             break
+                if bad and on_discontinuity(g, p0, os.path.join(wdir, "m_%d_%d.wb" % (wi, mi)), sp, d, fpt, spherical):
+                    skipped += 1; dist["on-discontinuity"] = dist.get("on-discontinuity", 0) + 1
+                    continue
                 if bad:
                     p2_ = os.path.join(wdir, "m_%d_%d.wb" % (wi, mi))
                     nonunique = w2 is not w and triangulations_differ(p0, p2_, fpt, spherical)
@@ -308,7 +340,8 @@ def oracle(seed, tier):
                     viol.append({"probe": "depth-surface-triangulation-not-unique" if nonunique else "motion:%s" % kind,
                                  "what": "%s world: %s under %s at surface position %s depth %g" % ("spherical" if spherical else "cartesian", bad, name, [round(v, 6) for v in sp], d),
                                  "world_json": w, "moved_world_json": w2, "world": p0, "moved_world": os.path.join(wdir, "m_%d_%d.wb" % (wi, mi)), "motion": name,
-                                 "features": [f["model"] for f in w["features"]]})
+                                 "features": [f["model"] for f in w["features"]], "depth": float(d).hex(),
+                                 "query3": [float(x).hex() for x in to3(g, sp, d)], "moved_query3": [float(x).hex() for x in to3(g, list(fpt(sp[0], sp[1])), d)]})
                     break
         if len(samples) < 2 and mv:
             samples.append({"world": json.dumps(w)[:500], "motions": [m[0] for m in mv], "queries": len(qs)})
@@ -338,6 +371,19 @@ def correspondence(seed, tier):
 
 
 def replay(rp):
+    """re-run the recorded pair of worlds at the recorded (exact) query and its image; True = they agree now"""
     v = rp["violation"]
     print(json.dumps({k: v[k] for k in v if not k.endswith("world_json")}, indent=1)[:3000])
-    return False
+    if "query3" not in v or "moved_world_json" not in v:
+        return False
+    wdir = proto.workdir("C08_replay")
+    pa, pb = os.path.join(wdir, "a.wb"), os.path.join(wdir, "b.wb")
+    json.dump(v["world_json"], open(pa, "w")); json.dump(v["moved_world_json"], open(pb, "w"))
+    d = float.fromhex(v["depth"])
+    rc, out, err = proto.run_harness(["world a %s -" % pa, "world b %s -" % pb, q3("a", [float.fromhex(x) for x in v["query3"]], d, PROPS),
+                                      q3("b", [float.fromhex(x) for x in v["moved_query3"]], d, PROPS)])
+    print("original :", out[2:3], "\nmoved    :", out[3:4])
+    if rc != 0 or len(out) != 4:
+        return False
+    a, b = parse_answer(out[2]), parse_answer(out[3])
+    return a[0] == "ok" and b[0] == "ok" and len(a[1]) == len(b[1]) and all(close_vals(x, y) for x, y in zip(a[1], b[1]))
